@@ -46,8 +46,8 @@ Definition tstate0 : tstate := {| up_name := []; up_active := false; t_alive := 
    [f19]     ConvertPath refuses ".." components and names without leading '/'  (tree since 9f956a4)
    [fstale]  the name of a refused upload request is not left behind in fName  (tree since 7654ac8)
    [fundone] a new upload request first finishes the undone one (CloseUndoneFileUpload) before its
-             name is read into fName                                           (notes/fix_C19_4.diff)
-   [flist]   CreateFileListInfo skips entries whose full path does not fit     (notes/fix_C19_5.diff) *)
+             name is read into fName                                           (tree since fb3fc0a)
+   [flist]   CreateFileListInfo skips entries whose full path does not fit     (tree since 2214ab9) *)
 Record tvariant := { f19 : bool; fstale : bool; fundone : bool; flist : bool }.
 
 Definition conv (v : tvariant) (root name : str) : option str :=
